@@ -281,7 +281,11 @@ func fact(n int) int64 {
 // Run executes all self-checks; returns a report and an error if any failed.
 func Run() (string, error) {
 	rep := ""
-	for _, c := range append(Checks(), countChecks()...) {
+	all := append(Checks(), countChecks()...)
+	if vrt.RaceEnabled {
+		all = append(all, raceChecks()...)
+	}
+	for _, c := range all {
 		if err := c.run(); err != nil {
 			return rep, err
 		}
